@@ -22,7 +22,7 @@ try:
         if meta.get("status"):
             print(tag, "skipped:", meta["status"])
             continue
-        prop = meta["property"]
+        prop = meta.get("expected_check", meta["property"])
         patch = os.path.join(base, tag, "patch.diff")
         r = subprocess.run(["git", "-C", "/repo", "apply", patch], capture_output=True, text=True)
         if r.returncode != 0:
